@@ -1,14 +1,57 @@
 (* C03 — Block bookkeeping always matches the true contents of the block.
-   Linear half: in every state reachable by an admissible history, the allocation count, the free
-   byte total, the emptiness flag, both statistics and the self-check (Validate) are what the list
-   of live items implies, and the enumerated regions tile [0, size) with the non-free regions being
-   exactly the live items in address order. (FreeRegionsCount is the constant MaxInt for this
-   algorithm.)  The TLSF half is added by TlsfStep2.v (second invariant layer). *)
-From Coq Require Import ZArith List Lia.
-From Arsenal Require Import Util Bits Gran.
-From Arsenal Require Import Linear LinearInv LinearAlloc LinearFree LinearStep LinearSwap LinearVisit LinearProps.
+   TLSF half: for every block size 1 <= size < 2^39 (the uint32 first-level bitmap covers exactly
+   these), every power-of-two granularity, either handler and every history with power-of-two
+   alignments: allocation count, free bytes, emptiness flag, free-region count, both statistics are
+   the figures recomputed from the region list, the regions tile [0, size), free lists, both
+   bitmaps and the running counters are exact, and Validate reports no inconsistency (with vam's
+   handler and granularity > 256 under the hypothesis that the handler's own page check passes —
+   the uint16 page counter wraps at 65536 one-byte allocations on one 64 KiB page, where Validate
+   would really fail; see DESIGN.md).
+   Linear half: the same for every reachable linear state. *)
+From Coq Require Import ZArith NArith List Lia.
+From Arsenal Require Import Util Bits Gran Tlsf TlsfStep TlsfProps SizeClass TlsfInv2 TlsfStep2 TlsfProps2 GranInv GranTlsf.
+From Arsenal Require Linear LinearInv LinearAlloc LinearFree LinearStep LinearSwap LinearVisit LinearProps.
 Import ListNotations.
 Open Scope Z_scope.
+
+Theorem C03_tlsf_bookkeeping : forall h gr size ops,
+  cfg2_ok gr size -> Forall op_ok ops ->
+  let t := run (tlsf_init h gr size) ops in
+  allocation_count t = zlen (live t) /\
+  sum_free_size t = size - sum_sizes (live t) /\
+  (is_empty t = true <-> live t = []) /\
+  free_regions_count t = zlen (free_regions_pos t) /\
+  (tiles 0 (regions t) /\ chain_end 0 (regions t) = size /\ sum_sizes (regions t) = size) /\
+  add_statistics t = mkStats 1 (zlen (taken_regions t)) size (sum_sizes (taken_regions t)) /\
+  add_detailed_statistics t = dspec (taken_regions t) (free_regions_pos t) size.
+Proof. exact tlsf_reach_bookkeeping. Qed.
+Print Assumptions C03_tlsf_bookkeeping.
+
+Theorem C03_tlsf_validate_disabled : forall h gr size ops,
+  cfg2_ok gr size -> Forall op_ok ops ->
+  let t := run (tlsf_init h gr size) ops in
+  enabled (t_gran t) = false -> validate t = Some true.
+Proof. exact tlsf_reach_validate_disabled. Qed.
+Print Assumptions C03_tlsf_validate_disabled.
+
+Theorem C03_tlsf_validate : forall h gr size ops,
+  cfg2_ok gr size -> Forall op_ok ops ->
+  let t := run (tlsf_init h gr size) ops in
+  gran_validate (t_gran t) (map (fun b => (b_off b, b_size b)) (live t)) = Some true ->
+  validate t = Some true.
+Proof. exact tlsf_reach_validate. Qed.
+Print Assumptions C03_tlsf_validate.
+
+(* non-vacuity (TLSF): the hypotheses are met by a concrete history ending with three live blocks *)
+Example C03_tlsf_nonvacuous :
+  cfg2_ok 1024 4096 /\ Forall op_ok ex_ops /\ length (live (run (tlsf_init HVam 1024 4096) ex_ops)) = 3%nat.
+Proof.
+  split; [split; [lia|exists 10; split; [lia|reflexivity]]|]. exact (conj ex_ops_ok ex_live_three).
+Qed.
+
+Module LinearHalf.
+Import Linear LinearInv LinearAlloc LinearFree LinearStep LinearSwap LinearVisit LinearProps.
+Import ListNotations.
 
 Theorem C03_linear : forall h gr size l,
   lcfg_ok gr size -> lreach h gr size l ->
@@ -31,3 +74,5 @@ Proof.
   split; [exists LinearStep.ex_ops; split; [exact (proj1 LinearStep.ex_ops_ok)|reflexivity]|].
   exact (proj1 (proj2 LinearStep.ex_ops_ok)).
 Qed.
+
+End LinearHalf.
